@@ -118,6 +118,8 @@ pub enum Fault {
     Inject(u32, i32),
     /// `_exit(99)` immediately before traced call number k
     Kill(u32),
+    /// run the registered action (a "peer") immediately before traced call number k, then proceed
+    Action(u32),
 }
 
 #[derive(Default)]
@@ -317,6 +319,16 @@ thread_local! {
     } };
 }
 
+thread_local! {
+    #[allow(clippy::type_complexity)]
+    static ACTION: RefCell<Option<Box<dyn FnMut()>>> = const { RefCell::new(None) };
+}
+
+/// Registers the action run by `Fault::Action(k)` (with interposition disabled while it runs).
+pub fn set_action(f: Option<Box<dyn FnMut()>>) {
+    ACTION.with(|a| *a.borrow_mut() = f);
+}
+
 /// Makes the calling thread a participant of `world`.
 pub fn enter_world(world: &Arc<World>, tid: usize) {
     TL.with(|t| {
@@ -421,19 +433,19 @@ fn set_errno(e: i32) {
     unsafe { *libc::__errno_location() = e }
 }
 
-fn lstat_ino(path: &str) -> u64 {
+fn lstat_ino(path: &str) -> (u64, u32) {
     let c = match std::ffi::CString::new(path) {
         Ok(c) => c,
-        Err(_) => return 0,
+        Err(_) => return (0, 0),
     };
     let mut st: libc::stat = unsafe { std::mem::zeroed() };
     let e = errno();
     let r = unsafe { libc::lstat(c.as_ptr(), &mut st) };
     set_errno(e);
     if r == 0 {
-        st.st_ino
+        (st.st_ino, st.st_mode)
     } else {
-        0
+        (0, 0)
     }
 }
 
@@ -552,11 +564,40 @@ fn prologue(describe: impl FnOnce(&World) -> Option<Desc>) -> Outcome {
         }
         w.yield_point(tid, d);
     }
+    let mut desc = desc;
+    if w.scheduling && matches!(desc.call, "unlink" | "chmod" | "rename" | "link" | "rmdir" | "utimensat") {
+        // peers ran while this call was pending: refresh the identity of what it acts on
+        let (i, m) = lstat_ino(&desc.path);
+        desc.ino = i;
+        if matches!(desc.call, "rename" | "link") {
+            desc.arg = m as i64;
+        }
+        if !desc.path2.is_empty() {
+            desc.ino2 = lstat_ino(&desc.path2).0;
+        }
+    }
     match fault {
         Fault::Kill(k) if k == idx => unsafe { libc::_exit(99) },
         Fault::Inject(k, e) if k == idx => {
             TL.with(|t| t.fault_hit.set(true));
             Outcome::Fail(w, desc, idx, e)
+        }
+        Fault::Action(k) if k == idx => {
+            TL.with(|t| t.fault_hit.set(true));
+            let f = ACTION.with(|a| a.borrow_mut().take());
+            if let Some(mut f) = f {
+                f();
+                ACTION.with(|a| *a.borrow_mut() = Some(f));
+            }
+            // the action may have changed what the pending call is about to act on
+            let mut desc = desc;
+            if matches!(desc.call, "unlink" | "chmod" | "rename" | "link" | "rmdir" | "utimensat") {
+                desc.ino = lstat_ino(&desc.path).0;
+                if !desc.path2.is_empty() {
+                    desc.ino2 = lstat_ino(&desc.path2).0;
+                }
+            }
+            Outcome::Go(w, desc, idx)
         }
         _ => Outcome::Go(w, desc, idx),
     }
@@ -1130,7 +1171,7 @@ pub unsafe extern "C" fn utimensat(dirfd: c_int, p: *const c_char, times: *const
             return None;
         }
         let mut d = Desc::new("utimensat", Class::Path);
-        d.ino = lstat_ino(&path);
+        d.ino = lstat_ino(&path).0;
         d.path = path;
         Some(d)
     }) {
@@ -1208,7 +1249,7 @@ macro_rules! path_mode_call {
                     return None;
                 }
                 let mut d = Desc::new($call, Class::Path);
-                d.ino = lstat_ino(&path);
+                d.ino = lstat_ino(&path).0;
                 d.path = path.clone();
                 d.arg = mode as i64;
                 Some(d)
@@ -1242,7 +1283,7 @@ pub unsafe extern "C" fn fchmodat(dirfd: c_int, p: *const c_char, mode: mode_t, 
             return None;
         }
         let mut d = Desc::new("chmod", Class::Path);
-        d.ino = lstat_ino(&path);
+        d.ino = lstat_ino(&path).0;
         d.path = path;
         d.arg = mode as i64;
         Some(d)
@@ -1272,7 +1313,7 @@ macro_rules! path_call {
                     return None;
                 }
                 let mut d = Desc::new($call, Class::Path);
-                d.ino = lstat_ino(&path);
+                d.ino = lstat_ino(&path).0;
                 d.path = path.clone();
                 Some(d)
             }) {
@@ -1305,7 +1346,7 @@ pub unsafe extern "C" fn unlinkat(dirfd: c_int, p: *const c_char, flags: c_int) 
             return None;
         }
         let mut d = Desc::new(if flags & libc::AT_REMOVEDIR != 0 { "rmdir" } else { "unlink" }, Class::Path);
-        d.ino = lstat_ino(&path);
+        d.ino = lstat_ino(&path).0;
         d.path = path;
         Some(d)
     }) {
@@ -1332,8 +1373,10 @@ pub unsafe extern "C" fn rename(a: *const c_char, b: *const c_char) -> c_int {
             return None;
         }
         let mut d = Desc::new("rename", Class::Path);
-        d.ino = lstat_ino(&pa);
-        d.ino2 = lstat_ino(&pb);
+        let (i, m) = lstat_ino(&pa);
+        d.ino = i;
+        d.arg = m as i64;
+        d.ino2 = lstat_ino(&pb).0;
         d.path = pa.clone();
         d.path2 = pb.clone();
         Some(d)
@@ -1363,8 +1406,10 @@ pub unsafe extern "C" fn renameat(da: c_int, a: *const c_char, db: c_int, b: *co
             return None;
         }
         let mut d = Desc::new("rename", Class::Path);
-        d.ino = lstat_ino(&pa);
-        d.ino2 = lstat_ino(&pb);
+        let (i, m) = lstat_ino(&pa);
+        d.ino = i;
+        d.arg = m as i64;
+        d.ino2 = lstat_ino(&pb).0;
         d.path = pa;
         d.path2 = pb;
         Some(d)
@@ -1394,8 +1439,10 @@ pub unsafe extern "C" fn linkat(da: c_int, a: *const c_char, db: c_int, b: *cons
             return None;
         }
         let mut d = Desc::new("link", Class::Path);
-        d.ino = lstat_ino(&pa);
-        d.ino2 = lstat_ino(&pb);
+        let (i, m) = lstat_ino(&pa);
+        d.ino = i;
+        d.arg = m as i64;
+        d.ino2 = lstat_ino(&pb).0;
         d.path = pa;
         d.path2 = pb;
         Some(d)
